@@ -21,7 +21,7 @@ CLAIMED["C15"] = {"technique": _TECH,
     "note": _NOTE + " Heights are restricted to [0, 2^32); an explicit block_reward of 0 is treated by the code as 'not given' and is excluded by the contract's precondition."}
 
 CLAIMED["C13"] = {"technique": _TECH,
-    "text": "Proved for all inputs: a data item of any length 1..2^32-1 is pushed with the shortest push and an exact little-endian length, disassembles to itself and re-assembles to the same bytes; every defined non-push opcode name assembles to one byte and disassembles to the same operation (all names, finite); pushes and opcodes do not interfere (two-item combinations); witness stacks of 0..3 items with items of any length use CompactSize count and lengths and round-trip with arbitrary trailing bytes; every standard-template builder disassembles to exactly the intended opcodes and pushes for all argument sizes the template allows (multisig for n in {1,2,3,15,16}, every m). Not proved: the n-ary composition for item lists of unbounded length (needs an invariant over lists of strings).",
+    "text": "Proved for all inputs: a data item of any length 1..2^32-1 is pushed with the shortest push and an exact little-endian length, disassembles to itself and re-assembles to the same bytes; every defined non-push opcode name assembles to one byte and disassembles to the same operation (all names, finite); pushes and opcodes do not interfere (two-item combinations); witness stacks of 0..2 items with items of any length use CompactSize count and lengths and round-trip with arbitrary trailing bytes; every standard-template builder disassembles to exactly the intended opcodes and pushes for all argument sizes the template allows (multisig for n in {1,2,3,15,16}, every m). Not proved: the n-ary composition for item lists of unbounded length (needs an invariant over lists of strings).",
     "note": _NOTE + " Opcode numbers are compared with a table transcribed from Bitcoin Core's script.h for the opcodes the templates use."}
 
 CLAIMED["C17"] = {"technique": _TECH + "; the socket is a ghost object with a nondeterministic recv contract, so one proof covers every fragmentation",
